@@ -66,6 +66,13 @@ Definition search_identity_matrix : list Z :=
   search_bytes (fun c => px_eqb (cm_kernel (CMMatrix identity_matrix) (grey c c)) (grey c c)).
 Definition search_identity_transfer : list Z :=
   search_bytes (fun c => (transfer (TFLinear f1 fzero) c =? c) && (transfer (TFTable [fzero; f1]) c =? c)).
+(* second pass: opaque grey bytes that saturate(1) / hueRotate(0) change: [kind (0 = saturate, 1 = hueRotate); c] *)
+Definition search_identity_saturate_hue : list Z :=
+  match search_bytes (fun c => px_eqb (cm_kernel (CMSaturate f1) (grey c 255)) (grey c 255)) with
+  | c :: _ => [0; c]
+  | [] => match search_bytes (fun c => px_eqb (cm_kernel (CMHueRotate f1 fzero) (grey c 255)) (grey c 255)) with
+          | c :: _ => [1; c] | [] => [] end
+  end.
 Definition search_lut_monotone : list Z :=
   search_bytes (fun c => (c =? 255) || ((lut_into_linear_ch c <=? lut_into_linear_ch (c + 1)) && (lut_from_linear_ch c <=? lut_from_linear_ch (c + 1)))).
 
